@@ -21,6 +21,8 @@ func main() {
 	switch os.Args[1] {
 	case "text":
 		cmdText(os.Args[2:])
+	case "run":
+		cmdRun(os.Args[2:])
 	case "rules":
 		cmdRules(os.Args[2:])
 	default:
